@@ -530,10 +530,45 @@ func (e *Engine) binop(op token.Token, a, b *Term, opType types.Type) *Term {
 			if b.IsConstInt() {
 				return Aff(a, -b.I)
 			}
-			ab, ac := AffParts(a)
-			bb, bc := AffParts(b)
-			if ab == bb {
-				return ConstInt(ac - bc)
+			// (pa - na + ca) - (pb - nb + cb) = (pa + nb) - (na + pb) + (ca - cb), cancelling equal symbols
+			pa, na, ca := Aff2Parts(a)
+			pb, nb, cb := Aff2Parts(b)
+			pos := []*Term{}
+			neg := []*Term{}
+			for _, t := range []*Term{pa, nb} {
+				if t != nil {
+					pos = append(pos, t)
+				}
+			}
+			for _, t := range []*Term{na, pb} {
+				if t != nil {
+					neg = append(neg, t)
+				}
+			}
+			for i := 0; i < len(pos); i++ {
+				for j := 0; j < len(neg); j++ {
+					if pos[i] == neg[j] {
+						pos = append(pos[:i], pos[i+1:]...)
+						neg = append(neg[:j], neg[j+1:]...)
+						i--
+						break
+					}
+				}
+			}
+			if len(pos) <= 1 && len(neg) <= 1 {
+				var p, n *Term
+				if len(pos) == 1 {
+					p = pos[0]
+				}
+				if len(neg) == 1 {
+					n = neg[0]
+				}
+				if p == nil && n == nil {
+					return ConstInt(ca - cb)
+				}
+				if p != nil || n != nil {
+					return Aff2(p, n, ca-cb)
+				}
 			}
 		}
 	case token.EQL:
